@@ -67,14 +67,13 @@ theorem c11_globMatch_iff (e : Env) (pat item : Str) (hb : '[' ∉ pat) :
     hits of the searches: `p` is matched by the glob pattern of some search `s`, resolves to a
     typed Sid of the type of `s`, and the string of `s` matches the string of that Sid.
     Hypotheses: `hsp` no search raises in `sid.path()`; `hgm` no search string contains `[`
-    (`glob2re` is out of model then: K2); `hstr` searches that render the same (type, pattern) pair
-    have the same string — the code globs such a pair only once, for the FIRST of them, while the
-    repaired filter depends on the string (needed: `C11Ex.c11_sameStr_needed`; vacuous for one search; true for the searches
-    `Sid(...)` produces, whose string is determined by type and fields); `htot` `Sid(path=…)`
-    raises on no node (C06: `c11_total_of_wf`). -/
+    (`glob2re` is out of model then: K2); `htot` `Sid(path=…)` raises on no node (C06:
+    `c11_total_of_wf`).  (Since the memo of `star_search_simple` is keyed by (type, pattern,
+    str(search)) — repair D26, witness `C11Ex.c11_sameStr_regression` — no condition relating the
+    searches to each other is needed.) -/
 theorem c11_star_list (w : World) (config : Option Str) (searches : List Sid)
     (hsp : ∀ s ∈ searches, ∃ po, d.ctx.sidPath config s = .ok po)
-    (hgm : ∀ s ∈ searches, '[' ∉ s.string) (hstr : SameStr d config searches)
+    (hgm : ∀ s ∈ searches, '[' ∉ s.string)
     (htot : ∀ p ∈ w.nodes.map (·.1), ∃ x, d.ctx.sidOfPath p config = .ok x) :
     ∃ hs : List (Str × Sid),
       d.pathsStarSids w config searches = .ok (hs.map (·.2)) ∧
@@ -86,7 +85,7 @@ theorem c11_star_list (w : World) (config : Option Str) (searches : List Sid)
     intro p hp e he
     obtain ⟨x, hx⟩ := htot p hp
     rw [hx] at he; cases he
-  obtain ⟨hs, h1, h2, h3⟩ := pathsStarGo_pairs d w config htot' searches hsp hgm hstr [] []
+  obtain ⟨hs, h1, h2, h3⟩ := pathsStarGo_pairs d w config htot' searches hsp hgm [] []
     (fun tp htp => by simp at htp)
   have h3' : ∀ p x, (p, x) ∈ hs ↔ ∃ s ∈ searches, p ∈ w.glob (patOf d config s) ∧
       d.ctx.sidOfPath p config = .ok x ∧ x.typed = true ∧ x.type = s.type ∧
@@ -108,13 +107,13 @@ theorem c11_star_list (w : World) (config : Option Str) (searches : List Sid)
     whose string the search string matches -/
 theorem c11_star_list_mem (w : World) (config : Option Str) (searches : List Sid)
     (hsp : ∀ s ∈ searches, ∃ po, d.ctx.sidPath config s = .ok po)
-    (hgm : ∀ s ∈ searches, '[' ∉ s.string) (hstr : SameStr d config searches)
+    (hgm : ∀ s ∈ searches, '[' ∉ s.string)
     (htot : ∀ p ∈ w.nodes.map (·.1), ∃ x, d.ctx.sidOfPath p config = .ok x) :
     ∃ r, d.pathsStarSids w config searches = .ok r ∧ r.Nodup ∧
       ∀ x, x ∈ r ↔ ∃ s ∈ searches, ∃ p ∈ w.glob (patOf d config s),
         d.ctx.sidOfPath p config = .ok x ∧ x.typed = true ∧ x.type = s.type ∧
         Find.globMatch d.ctx.env s.string x.string = .ok true := by
-  obtain ⟨hs, h1, _, h3, h4⟩ := c11_star_list d w config searches hsp hgm hstr htot
+  obtain ⟨hs, h1, _, h3, h4⟩ := c11_star_list d w config searches hsp hgm htot
   refine ⟨_, h1, h3, fun x => ?_⟩
   rw [List.mem_map]
   constructor
@@ -136,9 +135,7 @@ theorem c11_star_one (w : World) (config : Option Str) (s : Sid) (pat : Str)
         Find.globMatch d.ctx.env s.string x.string = .ok true := by
   obtain ⟨r, h1, h2, h3⟩ := c11_star_list_mem d w config [s]
     (fun s' hs' => by simp only [List.mem_singleton] at hs'; subst hs'; exact ⟨_, hs⟩)
-    (fun s' hs' => by simp only [List.mem_singleton] at hs'; subst hs'; exact hgm)
-    (fun a ha b hb _ _ => by
-      simp only [List.mem_singleton] at ha hb; subst ha; subst hb; rfl) htot
+    (fun s' hs' => by simp only [List.mem_singleton] at hs'; subst hs'; exact hgm) htot
   refine ⟨r, h1, h2, fun x => ?_⟩
   rw [h3]
   constructor
@@ -291,7 +288,7 @@ theorem c11_complete (w : World) (config : Option Str) (s e : Sid) (pat p : Str)
 theorem c11_complete_list (w : World) (config : Option Str) (searches : List Sid) (s e : Sid)
     (pat p : Str) (r : List Sid)
     (hsp : ∀ s ∈ searches, ∃ po, d.ctx.sidPath config s = .ok po)
-    (hgm : ∀ s ∈ searches, '[' ∉ s.string) (hstr : SameStr d config searches)
+    (hgm : ∀ s ∈ searches, '[' ∉ s.string)
     (hmem : s ∈ searches) (hs : d.ctx.sidPath config s = .ok (some pat))
     (hws : wellTyped d.ctx.env d.ctx.cfg.sid.templates s)
     (hwe : wellTyped d.ctx.env d.ctx.cfg.sid.templates e)
@@ -301,7 +298,7 @@ theorem c11_complete_list (w : World) (config : Option Str) (searches : List Sid
     (hvals : entityValsOk d.ctx config e = true) (hb : '[' ∉ pat)
     (htot : ∀ p ∈ w.nodes.map (·.1), ∃ x, d.ctx.sidOfPath p config = .ok x)
     (hr : d.pathsStarSids w config searches = .ok r) : e ∈ r := by
-  obtain ⟨r', h1, _, h3⟩ := c11_star_list_mem d w config searches hsp hgm hstr htot
+  obtain ⟨r', h1, _, h3⟩ := c11_star_list_mem d w config searches hsp hgm htot
   rw [hr] at h1
   injection h1 with h1
   subst h1
